@@ -36,6 +36,10 @@ const csearch_t::point_t& csearch_t::search(bundle_t& bundle, const scalar_t miu
     auto& t = m_point.m_t;
     t       = 1.0;
     auto tL = 0.0;
+
+    // NB: the status of the previous call must not survive if the loop below runs out of function evaluations!
+    m_point.m_status = csearch_status::max_iters;
+
     auto tR = std::numeric_limits<scalar_t>::infinity();
 
     const auto new_trial = [&]()
